@@ -2,7 +2,7 @@
    translations (or absent) against rendering without a catalogue, through the
    relational reading of the walker (Proofs/InterpRelProofs.v). *)
 From Soy Require Import Model.Bytes Model.Outcome Model.Num Model.Values Model.Ast Model.MsgId
-  Model.Escape Model.Interp Model.MsgParts Spec.MsgCat Proofs.MsgPartsProofs Proofs.InterpRelProofs.
+  Model.Escape Model.Interp Model.MsgParts Spec.MsgCat Proofs.MsgPartsProofs Proofs.InterpRelProofs Proofs.InterpPosProofs.
 Open Scope N_scope.
 
 Section Whole.
@@ -34,28 +34,38 @@ Hypothesis Hreg : Forall (fun t => okP (t_node t)) (r_templates (c_reg cf)).
 Lemma flat_okP_items body p n b : Forall okP body -> In (NMsgPlaceholder p n b) body -> okP b.
 Proof. intros H Hin. rewrite Forall_forall in H. apply (H _ Hin). Qed.
 
-(* ---- a flat message body against its own items ---- *)
+(* ---- a flat message body against its own items, each placeholder resolved to the
+        first placeholder of [phs] carrying its name ---- *)
+
+Definition pos_insensitive (w : node -> M value) : Prop :=
+  forall b1 b2, okP b1 -> okP b2 -> pstrip b1 = pstrip b2 -> mrel (w b1) (w b2).
+
+Lemma okP_placeholder phs p n b : Forall okP phs -> In (NMsgPlaceholder p n b) phs -> okP b.
+Proof. intros H Hin. rewrite Forall_forall in H. apply (H _ Hin). Qed.
 
 Section Flat.
 Variables w1 w2 : node -> M value.
 Hypothesis Hw : forall n, okP n -> mrel (w1 n) (w2 n).
+Hypothesis Hpos1 : pos_insensitive w1.
 
 (* direction A: the source walker refines the items (raw text through w1) *)
 Hypothesis Hraw1 : forall p t, mrel (w1 (NRawText p t)) (_ <-- write t ;;; ret VUndef).
 
-Lemma flatA mp body : forallb flat_node body = true -> Forall okP body ->
+Lemma flatA mp phs body : coherent phs -> Forall okP phs -> (forall x, In x body -> In x phs) ->
+  forallb flat_node body = true ->
   forall raw (m1 : M unit), mrel m1 (write raw) ->
-  mrel (_ <-- m1 ;;; msg_body w1 mp body) (run_items w2 (merge_items_go (source_items body) raw)).
+  mrel (_ <-- m1 ;;; msg_body w1 mp body) (run_items w2 (map (resolve phs) (merge_items_go (source_items body) raw))).
 Proof.
-  induction body as [|n r IH]; intros Hf Hok raw m1 Hm1.
+  intros Hco Hokp. induction body as [|n r IH]; intros Hsub Hf raw m1 Hm1.
   - cbn [source_items flat_map merge_items_go msg_body]. destruct raw as [|c raw].
-    + cbn [run_items]. apply mrel_bind_l_unit; [|intros _; apply mrel_ret].
+    + cbn [map run_items]. apply mrel_bind_l_unit; [|intros _; apply mrel_ret].
       intros s1 s2 He. specialize (Hm1 s1 s2 He). unfold res_rel in Hm1.
       destruct (eqv_faultfree _ _ He) as [_ [_ [H3 H4]]]. rewrite (write_wr s2 [] H3 H4) in Hm1. cbn [fst snd] in Hm1.
       destruct Hm1 as [Hf1 | [Ho Hs]]; [left; exact Hf1 | right].
       split; [exists tt; exact Ho|]. eapply st_equiv_trans; [exact Hs|]. apply eqv_wr_nil. apply st_equiv_sym, (st_equiv_refl_l _ _ (st_equiv_sym _ _ He)).
-    + cbn [run_items]. apply mrel_bind; [exact Hm1 | intros _; apply mrel_ret].
-  - cbn [forallb] in Hf. apply Bool.andb_true_iff in Hf as [Hn Hr]. inversion Hok as [|? ? Hokn Hokr]; subst.
+    + cbn [map resolve run_items]. apply mrel_bind; [exact Hm1 | intros _; apply mrel_ret].
+  - cbn [forallb] in Hf. apply Bool.andb_true_iff in Hf as [Hn Hr].
+    assert (forall x, In x r -> In x phs) as Hsub' by (intros x Hx; apply Hsub; right; exact Hx).
     destruct n; cbn [flat_node] in Hn; try discriminate.
     + (* raw text *)
       change (source_items (NRawText p text :: r)) with (TText text :: source_items r).
@@ -63,21 +73,26 @@ Proof.
       apply (mrel_ext_l _ (_ <-- (_ <-- m1 ;;; _ <-- w1 (NRawText p text) ;;; ret tt) ;;; msg_body w1 mp r)).
       { intros s. rewrite mbind_assoc_pt. unfold mbind at 1 3. destruct (m1 s) as [[[]| | | | |] s']; try reflexivity.
         rewrite mbind_assoc_pt. reflexivity. }
-      apply (IH Hr Hokr (raw ++ text)).
+      apply (IH Hsub' Hr (raw ++ text)).
       eapply mrel_trans; [|apply mrel_write_app].
       apply mrel_bind; [exact Hm1|]. intros _.
       eapply mrel_trans; [apply mrel_bind; [apply Hraw1 | intros v; apply mrel_ret]|].
       apply mrel_ext_l with (m1' := write text); [|apply mrel_write].
       intros s. rewrite mbind_assoc_pt. unfold mbind, ret. destruct (write text s) as [[[]| | | | |] s']; reflexivity.
-    + (* placeholder *)
+    + (* placeholder: this occurrence against the first one with the same name *)
       change (source_items (NMsgPlaceholder p name n :: r)) with (TPh p name n :: source_items r).
       cbn [msg_body merge_items_go].
-      assert (mrel (msg_body w1 mp r) (run_items w2 (merge_items_go (source_items r) []))) as Hrest.
+      assert (In (NMsgPlaceholder p name n) phs) as Hin by (apply Hsub; left; reflexivity).
+      destruct (find_ph_same phs p name n Hco Hin) as [p' [b' [Hfind [Hin' Hsame]]]].
+      assert (mrel (msg_body w1 mp r) (run_items w2 (map (resolve phs) (merge_items_go (source_items r) [])))) as Hrest.
       { apply mrel_ext_l with (m1' := _ <-- ret tt ;;; msg_body w1 mp r); [intros s; reflexivity|].
-        apply (IH Hr Hokr [] (ret tt)). apply mrel_write_nil_r. }
-      assert (mrel (_ <-- w1 n ;;; msg_body w1 mp r) (_ <-- w2 n ;;; run_items w2 (merge_items_go (source_items r) []))) as Hph.
-      { apply mrel_bind; [apply Hw; exact Hokn | intros _; exact Hrest]. }
-      destruct raw as [|c raw]; cbn [run_items].
+        apply (IH Hsub' Hr [] (ret tt)). apply mrel_write_nil_r. }
+      assert (mrel (w1 n) (w2 b')) as Hnb.
+      { eapply mrel_trans; [apply (Hpos1 n b' (okP_placeholder _ _ _ _ Hokp Hin) (okP_placeholder _ _ _ _ Hokp Hin')); symmetry; exact Hsame|].
+        apply Hw, (okP_placeholder _ _ _ _ Hokp Hin'). }
+      assert (mrel (_ <-- w1 n ;;; msg_body w1 mp r) (_ <-- w2 b' ;;; run_items w2 (map (resolve phs) (merge_items_go (source_items r) [])))) as Hph.
+      { apply mrel_bind; [exact Hnb | intros _; exact Hrest]. }
+      destruct raw as [|c raw]; cbn [map resolve run_items]; rewrite Hfind; cbn [run_items].
       * apply mrel_bind_l_unit; [|intros _; exact Hph].
         intros s1 s2 He. specialize (Hm1 s1 s2 He). unfold res_rel in Hm1.
         destruct (eqv_faultfree _ _ He) as [_ [_ [H3 H4]]]. rewrite (write_wr s2 [] H3 H4) in Hm1. cbn [fst snd] in Hm1.
@@ -93,6 +108,7 @@ Section FlatB.
 Variables w1 w2 : node -> M value.
 Hypothesis Hw : forall n, okP n -> mrel (w1 n) (w2 n).
 Hypothesis Hraw2 : forall p t, mrel (_ <-- write t ;;; ret VUndef) (w2 (NRawText p t)).
+Hypothesis Hpos2 : pos_insensitive w2.
 
 Lemma unit_of_write_nil (m2 : M unit) : mrel (write []) m2 ->
   forall s1 s2, st_equiv s1 s2 -> (exists x, fst (m2 s2) = Ok x) /\ st_equiv s1 (snd (m2 s2)).
@@ -104,22 +120,24 @@ Proof.
   apply st_equiv_sym, eqv_wr_nil, (st_equiv_refl_l _ _ He).
 Qed.
 
-Lemma flatB mp body : forallb flat_node body = true -> Forall okP body ->
+Lemma flatB mp phs body : coherent phs -> Forall okP phs -> (forall x, In x body -> In x phs) ->
+  forallb flat_node body = true ->
   forall raw (m2 : M unit), mrel (write raw) m2 ->
-  mrel (run_items w1 (merge_items_go (source_items body) raw)) (_ <-- m2 ;;; msg_body w2 mp body).
+  mrel (run_items w1 (map (resolve phs) (merge_items_go (source_items body) raw))) (_ <-- m2 ;;; msg_body w2 mp body).
 Proof.
-  induction body as [|n r IH]; intros Hf Hok raw m2 Hm2.
+  intros Hco Hokp. induction body as [|n r IH]; intros Hsub Hf raw m2 Hm2.
   - cbn [source_items flat_map merge_items_go msg_body]. destruct raw as [|c raw].
-    + cbn [run_items]. apply mrel_bind_r_unit; [apply unit_of_write_nil, Hm2 | intros _; apply mrel_ret].
-    + cbn [run_items]. apply mrel_bind; [exact Hm2 | intros _; apply mrel_ret].
-  - cbn [forallb] in Hf. apply Bool.andb_true_iff in Hf as [Hn Hr]. inversion Hok as [|? ? Hokn Hokr]; subst.
+    + cbn [map run_items]. apply mrel_bind_r_unit; [apply unit_of_write_nil, Hm2 | intros _; apply mrel_ret].
+    + cbn [map resolve run_items]. apply mrel_bind; [exact Hm2 | intros _; apply mrel_ret].
+  - cbn [forallb] in Hf. apply Bool.andb_true_iff in Hf as [Hn Hr].
+    assert (forall x, In x r -> In x phs) as Hsub' by (intros x Hx; apply Hsub; right; exact Hx).
     destruct n; cbn [flat_node] in Hn; try discriminate.
     + change (source_items (NRawText p text :: r)) with (TText text :: source_items r).
       cbn [merge_items_go msg_body].
       apply (mrel_ext_r _ _ (_ <-- (_ <-- m2 ;;; _ <-- w2 (NRawText p text) ;;; ret tt) ;;; msg_body w2 mp r)).
       { intros s. rewrite mbind_assoc_pt. unfold mbind at 1 3. destruct (m2 s) as [[[]| | | | |] s']; try reflexivity.
         rewrite mbind_assoc_pt. reflexivity. }
-      apply (IH Hr Hokr (raw ++ text)).
+      apply (IH Hsub' Hr (raw ++ text)).
       eapply mrel_trans; [apply mrel_app_write|].
       apply mrel_bind; [exact Hm2|]. intros _.
       eapply mrel_trans; [|apply mrel_bind; [apply Hraw2 | intros v; apply mrel_ret]].
@@ -127,12 +145,17 @@ Proof.
       intros s. rewrite mbind_assoc_pt. unfold mbind, ret. destruct (write text s) as [[[]| | | | |] s']; reflexivity.
     + change (source_items (NMsgPlaceholder p name n :: r)) with (TPh p name n :: source_items r).
       cbn [msg_body merge_items_go].
-      assert (mrel (run_items w1 (merge_items_go (source_items r) [])) (msg_body w2 mp r)) as Hrest.
+      assert (In (NMsgPlaceholder p name n) phs) as Hin by (apply Hsub; left; reflexivity).
+      destruct (find_ph_same phs p name n Hco Hin) as [p' [b' [Hfind [Hin' Hsame]]]].
+      assert (mrel (run_items w1 (map (resolve phs) (merge_items_go (source_items r) []))) (msg_body w2 mp r)) as Hrest.
       { apply mrel_ext_r with (m2' := _ <-- ret tt ;;; msg_body w2 mp r); [intros s; reflexivity|].
-        apply (IH Hr Hokr [] (ret tt)). apply mrel_write_nil_l. }
-      assert (mrel (_ <-- w1 n ;;; run_items w1 (merge_items_go (source_items r) [])) (_ <-- w2 n ;;; msg_body w2 mp r)) as Hph.
-      { apply mrel_bind; [apply Hw; exact Hokn | intros _; exact Hrest]. }
-      destruct raw as [|c raw]; cbn [run_items].
+        apply (IH Hsub' Hr [] (ret tt)). apply mrel_write_nil_l. }
+      assert (mrel (w1 b') (w2 n)) as Hnb.
+      { eapply mrel_trans; [apply Hw, (okP_placeholder _ _ _ _ Hokp Hin')|].
+        apply (Hpos2 b' n (okP_placeholder _ _ _ _ Hokp Hin') (okP_placeholder _ _ _ _ Hokp Hin)); exact Hsame. }
+      assert (mrel (_ <-- w1 b' ;;; run_items w1 (map (resolve phs) (merge_items_go (source_items r) []))) (_ <-- w2 n ;;; msg_body w2 mp r)) as Hph.
+      { apply mrel_bind; [exact Hnb | intros _; exact Hrest]. }
+      destruct raw as [|c raw]; cbn [map resolve run_items]; rewrite Hfind; cbn [run_items].
       * apply mrel_bind_r_unit; [apply unit_of_write_nil, Hm2 | intros _; exact Hph].
       * apply mrel_bind; [exact Hm2 | intros _; exact Hph].
 Qed.
@@ -146,6 +169,12 @@ Proof.
   destruct Hp as [Hv [[Hc _] Hd]]. repeat split; [exact Hv | apply okP_all, Hc | apply okP_all, Hd].
 Qed.
 
+Lemma Forall_app_okP l1 l2 : Forall okP l1 -> Forall okP l2 -> Forall okP (l1 ++ l2).
+Proof. intros H1 H2. apply Forall_app. split; assumption. Qed.
+
+Lemma src_sub (src cb dflt : list node) : src = cb \/ src = dflt -> forall x, In x src -> In x (dflt ++ cb).
+Proof. intros [-> | ->] x Hx; apply in_or_app; [right | left]; exact Hx. Qed.
+
 (* ---- one message: source rendering against rendering with the catalogue ---- *)
 
 Section MsgA.
@@ -154,6 +183,8 @@ Hypothesis Hw : forall n, okP n -> mrel (w1 n) (w2 n).
 Hypothesis Hw' : forall n, okP n -> mrel (w1' n) (w2 n).
 Hypothesis Hraw1 : forall p t, mrel (w1 (NRawText p t)) (_ <-- write t ;;; ret VUndef).
 Hypothesis Hraw1' : forall p t, mrel (w1' (NRawText p t)) (_ <-- write t ;;; ret VUndef).
+Hypothesis Hpos1 : pos_insensitive w1.
+Hypothesis Hpos1' : pos_insensitive w1'.
 Hypothesis Hsyn1 : forall mp b, Forall okP b -> mrel (w1 (NMsg mp 0 [] [] b)) (_ <-- msg_body w1' mp b ;;; ret VUndef).
 
 Lemma msgA mp id body : ident_ok id body -> Forall okP body ->
@@ -161,10 +192,10 @@ Lemma msgA mp id body : ident_ok id body -> Forall okP body ->
 Proof.
   unfold ident_ok. intros Hid Hok. destruct (bundle_message bd id) as [m|] eqn:E.
   - destruct Hid as [[Hrb [Hco ->]] | [p [vn [pv [pc [cb [dflt [strs [-> [Hvn [-> [Hrc [Hrd [Hco Hstrs]]]]]]]]]]]]]].
-    + rewrite (identity_flat plural_index bd w2 mp id body Hrb Hco E).
+    + rewrite (identity_flat plural_index bd w2 mp id body Hrb E).
       destruct (reads_back_sound body Hrb) as [Hf _].
       apply mrel_ext_l with (m1' := _ <-- ret tt ;;; msg_body w1 mp body); [intros s; reflexivity|].
-      apply (flatA w1 w2 Hw Hraw1 mp body Hf Hok [] (ret tt)). apply mrel_write_nil_r.
+      apply (flatA w1 w2 Hw Hpos1 Hraw1 mp body body Hco Hok (fun x H => H) Hf [] (ret tt)). apply mrel_write_nil_r.
     + destruct (okP_plural_parts _ _ _ _ _ _ _ Hok) as [Hv [Hokc Hokd]].
       destruct (reads_back_sound cb Hrc) as [Hfc _]. destruct (reads_back_sound dflt Hrd) as [Hfd _].
       eapply mrel_ext_r; [intros s; apply (plural_selects plural_index bd w2 mp id p vn pv _ dflt strs s (or_introl Hvn) E)|].
@@ -175,13 +206,14 @@ Proof.
                 mrel (_ <-- (_ <-- w1 (NMsg mp 0 [] [] src) ;;; ret tt) ;;; ret tt)
                      (eval_form w2 [NMsgPlural p vn pv [NMsgPluralCase pc 1%Z cb] dflt] strs (plural_index z))) as Hsrc.
       { intros src Hs Hoks Hfs Hk.
-        rewrite (identity_form w2 p vn pv pc 1%Z cb dflt strs (plural_index z) src Hrc Hrd Hco Hs Hk).
+        rewrite (identity_form w2 p vn pv pc 1%Z cb dflt strs (plural_index z) src Hrc Hrd Hs Hk).
         eapply mrel_trans.
         - apply mrel_bind; [apply mrel_bind; [apply Hsyn1, Hoks | intros x; apply mrel_ret] | intros x; apply mrel_ret].
         - apply mrel_ext_l with (m1' := _ <-- ret tt ;;; msg_body w1' mp src).
           { intros s. rewrite !mbind_assoc_pt. cbn [mbind_ret_l_pt]. unfold mbind, ret.
             destruct (msg_body w1' mp src s) as [[[]| | | | |] s']; reflexivity. }
-          apply (flatA w1' w2 Hw' Hraw1' mp src Hfs Hoks [] (ret tt)). apply mrel_write_nil_r. }
+          apply (flatA w1' w2 Hw' Hpos1' Hraw1' mp (dflt ++ cb) src Hco (Forall_app_okP _ _ Hokd Hokc) (src_sub _ _ _ Hs) Hfs [] (ret tt)).
+          apply mrel_write_nil_r. }
       cbn [plural_pick]. specialize (Hstrs z). destruct (z =? 1)%Z.
       * apply (Hsrc cb (or_introl eq_refl) Hokc Hfc Hstrs).
       * apply (Hsrc dflt (or_intror eq_refl) Hokd Hfd Hstrs).
@@ -196,6 +228,8 @@ Hypothesis Hw : forall n, okP n -> mrel (w1 n) (w2 n).
 Hypothesis Hw' : forall n, okP n -> mrel (w1 n) (w2' n).
 Hypothesis Hraw2 : forall p t, mrel (_ <-- write t ;;; ret VUndef) (w2 (NRawText p t)).
 Hypothesis Hraw2' : forall p t, mrel (_ <-- write t ;;; ret VUndef) (w2' (NRawText p t)).
+Hypothesis Hpos2 : pos_insensitive w2.
+Hypothesis Hpos2' : pos_insensitive w2'.
 Hypothesis Hsyn2 : forall mp b, Forall okP b -> mrel (_ <-- msg_body w2' mp b ;;; ret VUndef) (w2 (NMsg mp 0 [] [] b)).
 
 Lemma msgB mp id body : ident_ok id body -> Forall okP body ->
@@ -203,10 +237,10 @@ Lemma msgB mp id body : ident_ok id body -> Forall okP body ->
 Proof.
   unfold ident_ok. intros Hid Hok. destruct (bundle_message bd id) as [m|] eqn:E.
   - destruct Hid as [[Hrb [Hco ->]] | [p [vn [pv [pc [cb [dflt [strs [-> [Hvn [-> [Hrc [Hrd [Hco Hstrs]]]]]]]]]]]]]].
-    + rewrite (identity_flat plural_index bd w1 mp id body Hrb Hco E).
+    + rewrite (identity_flat plural_index bd w1 mp id body Hrb E).
       destruct (reads_back_sound body Hrb) as [Hf _].
       apply mrel_ext_r with (m2' := _ <-- ret tt ;;; msg_body w2 mp body); [intros s; reflexivity|].
-      apply (flatB w1 w2 Hw Hraw2 mp body Hf Hok [] (ret tt)). apply mrel_write_nil_l.
+      apply (flatB w1 w2 Hw Hraw2 Hpos2 mp body body Hco Hok (fun x H => H) Hf [] (ret tt)). apply mrel_write_nil_l.
     + destruct (okP_plural_parts _ _ _ _ _ _ _ Hok) as [Hv [Hokc Hokd]].
       destruct (reads_back_sound cb Hrc) as [Hfc _]. destruct (reads_back_sound dflt Hrd) as [Hfd _].
       eapply mrel_ext_l; [intros s; apply (plural_selects plural_index bd w1 mp id p vn pv _ dflt strs s (or_introl Hvn) E)|].
@@ -217,13 +251,14 @@ Proof.
                 mrel (eval_form w1 [NMsgPlural p vn pv [NMsgPluralCase pc 1%Z cb] dflt] strs (plural_index z))
                      (_ <-- (_ <-- w2 (NMsg mp 0 [] [] src) ;;; ret tt) ;;; ret tt)) as Hsrc.
       { intros src Hs Hoks Hfs Hk.
-        rewrite (identity_form w1 p vn pv pc 1%Z cb dflt strs (plural_index z) src Hrc Hrd Hco Hs Hk).
+        rewrite (identity_form w1 p vn pv pc 1%Z cb dflt strs (plural_index z) src Hrc Hrd Hs Hk).
         eapply mrel_trans.
         2:{ apply mrel_bind; [apply mrel_bind; [apply Hsyn2, Hoks | intros x; apply mrel_ret] | intros x; apply mrel_ret]. }
         apply mrel_ext_r with (m2' := _ <-- ret tt ;;; msg_body w2' mp src).
         { intros s. rewrite !mbind_assoc_pt. unfold mbind, ret.
           destruct (msg_body w2' mp src s) as [[[]| | | | |] s']; reflexivity. }
-        apply (flatB w1 w2' Hw' Hraw2' mp src Hfs Hoks [] (ret tt)). apply mrel_write_nil_l. }
+        apply (flatB w1 w2' Hw' Hraw2' Hpos2' mp (dflt ++ cb) src Hco (Forall_app_okP _ _ Hokd Hokc) (src_sub _ _ _ Hs) Hfs [] (ret tt)).
+        apply mrel_write_nil_l. }
       cbn [plural_pick]. specialize (Hstrs z). destruct (z =? 1)%Z.
       * apply (Hsrc cb (or_introl eq_refl) Hokc Hfc Hstrs).
       * apply (Hsrc dflt (or_intror eq_refl) Hokd Hfd Hstrs).
@@ -303,6 +338,8 @@ Proof.
   - intros n Hn. eapply mrel_trans; [apply (walk_mono_le (pred f) f (Nat.le_pred_l f) n Hn) | apply IH, Hn].
   - apply walk_raw.
   - apply walk_raw.
+  - intros b1 b2. apply (walk_pos cf ident_ok ident_ok_0 Hreg f).
+  - intros b1 b2. apply (walk_pos cf ident_ok ident_ok_0 Hreg (pred f)).
   - intros mp b Hokb. destruct f as [|f']; [apply mrel_fuel | apply walk_syn, Hokb].
 Qed.
 
@@ -325,6 +362,8 @@ Proof.
   apply (msgB (walk_b cf plural_index bd f) (walk cf (S g)) (walk cf g)); try assumption.
   - apply raw_walk.
   - unfold g. replace (2 * f + 1)%nat with (S (2 * f)) by lia. apply raw_walk.
+  - intros b1 b2. apply (walk_pos cf ident_ok ident_ok_0 Hreg (S g)).
+  - intros b1 b2. apply (walk_pos cf ident_ok ident_ok_0 Hreg g).
   - intros mp b Hokb. apply syn_walk, Hokb.
 Qed.
 
@@ -406,9 +445,10 @@ End Whole.
 (* The placeholder nodes of a message carry the names that Model/MsgId.v
    (SetPlaceholdersAndID) gives them: [phs] lists, for every placeholder, its
    position, base name, String() text and node.  By C10 (names_distinct) equal
-   names mean equal (base name, String()) pairs; if String() is injective on
-   these nodes -- C17's print_injective; an explicit hypothesis here -- equal
-   names mean equal nodes. *)
+   names mean equal (base name, String()) pairs; if String() is injective up to
+   positions on these nodes -- C17_print_injective's conclusion for print
+   commands; for an HTML tag String() is its text; an explicit hypothesis here --
+   equal names mean the same code. *)
 From Soy Require Import Proofs.MsgIdProofs.
 
 Definition ph_of (nm : namemap) (x : N * bstr * bstr * node) : node :=
@@ -418,7 +458,7 @@ Theorem coherent_of_naming order mbody es nm (phs : list (N * bstr * bstr * node
   is_perm order -> msg_entries mbody = Ok es -> msg_names order mbody = Ok nm ->
   (forall p base str n, In (p, base, str, n) phs -> In (base, str) es) ->
   (forall p base str n p' base' str' n',
-      In (p, base, str, n) phs -> In (p', base', str', n') phs -> str = str' -> n = n') ->
+      In (p, base, str, n) phs -> In (p', base', str', n') phs -> str = str' -> pstrip n = pstrip n') ->
   coherent (map (ph_of nm) phs).
 Proof.
   intros Hperm Hes Hnm Hin Hinj p1 p2 name b1 b2 H1 H2.
